@@ -387,6 +387,7 @@ pub fn run_history<M: IoManager>(
                     }
                     Err(ClientError::ParallelFinalize) if expect_pf => {
                         obs.count("parallel_finalize_detected", 1);
+                        obs.count("parallel_finalize_on_merge_command", 1);
                         out.parallel_finalize = true;
                         drop(trx);
                         // C05: committed state unchanged.
@@ -451,6 +452,7 @@ pub fn run_history<M: IoManager>(
                     }
                     Err(ClientError::ParallelFinalize) if expect_pf => {
                         obs.count("parallel_finalize_detected", 1);
+                        obs.count("parallel_finalize_on_commit", 1);
                         out.parallel_finalize = true;
                         check_committed(rep, model, &committed, &json!({"ctx": ctx, "after": "parallel finalize error in commit"}), true, obs);
                         out.committed = committed;
@@ -477,4 +479,37 @@ pub fn run_history<M: IoManager>(
 pub fn err_kind(e: &ClientError) -> String {
     let s = format!("{e:?}");
     s.split(|c: char| !c.is_alphanumeric()).next().unwrap_or("").to_string()
+}
+
+/// Add to the model every command found in a replica's graph that the model does not know yet
+/// (merges written by a collapse, commands published by actions). Returns the new indexes.
+pub fn adopt(model: &mut Model, walked: &BTreeMap<Id, Walked>) -> Result<Vec<usize>, String> {
+    let mut new: Vec<(&Id, &Walked)> = walked.iter().filter(|(id, _)| model.idx(id).is_none()).collect();
+    new.sort_by_key(|(id, w)| (w.max_cut, **id));
+    let mut out = vec![];
+    for (id, w) in new {
+        let ps: Option<Vec<usize>> = w.parents.iter().map(|p| model.idx(&p.0)).collect();
+        let ps = ps.ok_or_else(|| format!("command {} has a parent unknown to the model", short(id)))?;
+        let (par, script) = match ps.as_slice() {
+            [] => return Err(format!("unexpected second init {}", short(id))),
+            [p] => (Par::Single(*p), Script::decode(&w.data).ok_or_else(|| format!("undecodable script in {}", short(id)))?),
+            [l, r] => {
+                let want = merge_id(&model.node(*l).id, &model.node(*r).id);
+                if want != *id {
+                    return Err(format!("merge {} does not carry the id derived from its parents", short(id)));
+                }
+                if w.prio != Prio::Merge {
+                    return Err(format!("two-parent command {} is not of merge priority", short(id)));
+                }
+                (Par::Merge(*l, *r), Script { tag: u32::MAX, quiet: true, ops: vec![] })
+            }
+            _ => unreachable!(),
+        };
+        out.push(model.push(Node { id: *id, par, prio: w.prio, script, max_cut: 0 }));
+        let v = *out.last().unwrap();
+        if model.node(v).max_cut != w.max_cut {
+            return Err(format!("command {} stored with max_cut {} but reference says {}", short(id), w.max_cut, model.node(v).max_cut));
+        }
+    }
+    Ok(out)
 }
